@@ -116,6 +116,29 @@ CLAIMED["C07"] = {
             "outside the claim.",
 }
 
+CLAIMED["C12"] = {
+    "text": "Three groups. (P) parsers against an independent grammar on "
+            "'scheme + N arbitrary bytes' including the cached offsets: "
+            "HTTPS N=3,5 and both schemes case-insensitively in quick, rsync "
+            "path part (2 arbitrary bytes behind h/m/) in quick, rsync N=4,5 "
+            "fully symbolic in thorough. (L) laws on arbitrary VALID URIs "
+            "(assembled through a hook constructor from any byte string the "
+            "reference grammar accepts, with the grammar's offsets): == is "
+            "the documented relation, reflexive, symmetric, transitive, "
+            "hash-consistent; relative_to / is_parent_of equal an independent "
+            "reference for all pairs with 5/6-byte tails; HTTPS ==/hash. "
+            "(J) join on concrete bases of every shape with arbitrary "
+            "arguments: result text, offsets, re-parse authority (HTTPS in "
+            "quick, rsync in thorough); parent in thorough.",
+    "ref": "§3 C12",
+    "note": "Hook: Rsync/Https::verif_from_parts + verif_parts (cfg "
+            "rpki_verif). (L) relies on (P) for 'the parser yields exactly "
+            "these states'; the fully symbolic rsync parser and join/parent "
+            "(BytesMut / shared-buffer truncation) only fit the thorough "
+            "caps. Tails above 6 bytes, serde forms and canonical_* are "
+            "outside the claim.",
+}
+
 NOT_APPLICABLE = {
 }
 
